@@ -659,3 +659,16 @@ def members_key(tree):
 
 def no_dups(tree):
     return isinstance(tree, Obj) and len(set(tree.keys())) == len(tree.ms)
+
+
+def prove_with_decls(ck, targets, propfile):
+    """Regenerate coq/gen/Decls.v from this run's tree (translate/decls.py: the declarations of Reply,
+    varlink_service::Method and varlink_service::Error), then the standard proof step; the pinned
+    file contains the tie lemmas (Shapes/DeclTie.v). A translator failure is a broken obligation."""
+    rc, out = sh([sys.executable, os.path.join(VERIF, "translate", "decls.py")])
+    ck.samples.append("translated: " + out.strip()[:600])
+    if rc != 0:
+        ck.proof_ok, ck.broken, ck.proof_log = False, "translator decls.py: " + out.strip()[-300:], out
+        ck.coq_build(list(targets))
+        return False
+    return ck.prove(["gen/Decls.v", "Shapes/DeclTie.v"] + list(targets), propfile)
